@@ -84,6 +84,14 @@ def recipes(tier: str):
          R.block("rb2", [R.rule(("or", P("o1", (), "hi"), P("y", (), "lo")), [("o2", (), "lo")]),
                          R.rule(P("y", ("any",), None), [("o2", (), "hi")], weight="0.250")], "Minimum", "Maximum", None)])
     out.append((hybrid, True))
+    # lock-range on the input variables: out-of-range rows must be clipped the same way in every mode
+    for recipe, full in list(out):
+        if full or recipe["outputs"][0]["defuzzifier"][0] in ("WeightedAverage", "WeightedSum") and recipe["inputs"][0]["terms"][0]["cls"] == "Triangle":
+            r = R.clone(recipe)
+            r["name"] = recipe["name"] + "-inlock"
+            for v in r["inputs"]:
+                v["lock_range"] = True
+            out.append((r, False))
     for recipe, _ in c01.space_d("quick"):
         if recipe["blocks"][0]["activation"] == ["General"] and recipe["blocks"][1]["activation"] == ["General"]:
             if recipe["outputs"][0]["aggregation"] in (None, "Maximum", "AlgebraicSum") and recipe["blocks"][0]["name"] == "rb1":
